@@ -34,9 +34,9 @@ A_SRC = {
 }
 
 
-def b_src(version):
-    # every version has a different constant AND a different file size
-    return "CONST = " + str(100 + version) + "  #" + "e" * version + "\ndef f(x: int):\n    return x\n"
+def b_src(version, pad=None):
+    # every version has a different constant; ordinary edits also change the file size (pad = version); a "same-size" replacement keeps the pad
+    return "CONST = " + str(100 + version) + "  #" + "e" * (version if pad is None else pad) + "\ndef f(x: int):\n    return x\n"
 
 
 CHILD = r'''
@@ -151,6 +151,7 @@ def opts_of(st):
 
 
 EDIT = ["edit"]
+EDIT_SAME_SIZE_OLDER = ["edit-same-size-older"]  # the file is replaced by one of the SAME size carrying an OLDER mtime (pip install of another release, tar, rsync -t, cp -p)
 
 
 def describe(h):
@@ -158,6 +159,8 @@ def describe(h):
     for st in h["steps"]:
         if st[0] == "edit":
             parts.append("edit-b")
+        elif st[0] == "edit-same-size-older":
+            parts.append("replace-b-same-size-older-mtime")
         else:
             parts.append(("nohook" if st[2] == "nohook" else "hook(" + "+".join(st[1]) + ";" + CK_SHORT[st[2]] + ")") + "import(" + ",".join(st[3]) + ")" + "".join("[" + k + "]" for k in sorted(opts_of(st))))
     return "|".join(parts)
@@ -230,6 +233,9 @@ def curated(tier):
     add("module", run_("a", TG, "a"), EDIT, run_("a", TG, "a"))
     add("none", run_("", "nohook", "b"), EDIT, run_("b", BT, "b"))
     add("none", run_("b", BT, "b"), EDIT, run_("", "nohook", "b"))
+    add("none", run_("b", TG, "b"), EDIT_SAME_SIZE_OLDER, run_("b", TG, "b"))
+    add("module", run_("ab", None, "a"), EDIT_SAME_SIZE_OLDER, run_("ab", None, "a"), run_("", "nohook", ["a"]))
+    add("none", run_("", "nohook", "b"), EDIT_SAME_SIZE_OLDER, run_("", "nohook", "b"), EDIT_SAME_SIZE_OLDER, run_("b", BT, "b"))
     # --- runs that read but do not write the cache (python -B) after runs that wrote it, and the converse
     add("none", run_("", "nohook", ["a", "b"]), run_("ab", TG, ["a", "b"], nowrite=True))
     add("module", run_("", "nohook", ["a"]), run_("ab", BT, ["a"], nowrite=True), run_("ab", BT, ["a"]))
@@ -257,7 +263,7 @@ def random_history(rng):
     steps = []
     for i in range(n):
         if i > 0 and rng.random() < 0.3:
-            steps.append(EDIT)
+            steps.append(EDIT if rng.random() < 0.7 else EDIT_SAME_SIZE_OLDER)
         ck = rng.choice(["nohook", TG, BT, None, TG, None])
         hooked = rng.choice(["a", "b", "ab"])
         order = rng.choice([["a", "b"], ["b", "a"], ["a"], ["b"]])
@@ -286,6 +292,7 @@ def play(repo, h, keep=False):
         fh.write(CHILD)
     base = int(time.time()) - 1000
     ver = 0
+    pad = 0
 
     def put(name, text, t):
         p = os.path.join(src, name)
@@ -299,7 +306,12 @@ def play(repo, h, keep=False):
         for st in h["steps"]:
             if st[0] == "edit":
                 ver += 1
+                pad = ver
                 put("b.py", b_src(ver), base + 10 * ver)  # constant, size and mtime (+10 s) all change
+                continue
+            if st[0] == "edit-same-size-older":
+                ver += 1
+                put("b.py", b_src(ver, pad), base - 100 * ver)  # constant changes; size identical; mtime OLDER than anything before
                 continue
             cfg = {"src": src, "hooked": st[1], "checker": st[2], "order": st[3], "link": h["link"], "nowrite": bool(opts_of(st).get("nowrite"))}
             p = subprocess.run([sys.executable, "-B", child], input=json.dumps(cfg), capture_output=True, text=True, env=child_env(repo, bool(opts_of(st).get("disable"))), cwd=d, timeout=300)
